@@ -402,8 +402,8 @@ func checkC17(c *Check) {
 			return true
 		})
 	}
-	c.add("O-C17.1", "every go statement of the module is covered", "all go statements of product code are in the two analysed entry points", len(where) == 0 && ngo >= 3, "", where...)
-	c.floor("go statements in product code", 3, ngo)
+	c.add("O-C17.1", "every go statement of the module is covered", "all go statements of product code are in the two analysed entry points", len(where) == 0 && ngo >= 1, "", where...)
+	c.floor("go statements in product code", 1, ngo)
 	checkNoSharedState(c, "O-C17.4")
 	responseBodiesClosed(c)
 }
